@@ -29,6 +29,8 @@ SHAPES = {
     "D1n": [("top",)],
     # a real top-level directory called .pad (the name padding entries use)
     "D3p": [(".pad", "x"), ("a",), (".pad", "y")],
+    # names with numbers: raw byte order f10 < f2, "natural" order differs
+    "D3num": [("f2",), ("f10",), ("d", "f1")],
     # names containing a backslash (an ordinary character on POSIX)
     "D3b": [("back\\slash",), ("d\\e", "f"), ("z",)],
     # a decomposed (NFD) name with a sibling that sorts between the
@@ -52,6 +54,8 @@ def content(seed, cid, length):
     """Deterministic bytes without any zero byte; prefix-stable in length."""
     if length == 0:
         return b""
+    if cid == "zero":
+        return bytes(length)          # all-zero content (creation checks only)
     key = (seed, cid)
     buf = _BUF.get(key)
     if buf is None or len(buf) < length:
